@@ -30,14 +30,17 @@ def chk_series(inp):
             return 'after %s on %s get_phosphosites() = %r, expected %r' % (ops_[:ops_.index(op) + 1], seq, got, model)
         if quiet(o.get_sequence) != seq:
             return 'stored sequence changed to %s' % quiet(o.get_sequence)
-    # derived values
+        # derived values after EVERY call of the series (a value remembered from an earlier site list must not come back)
+        ps = ''.join('E' if (i + 1) in model else c for i, c in enumerate(seq))
+        if quiet(o.get_phosphosequence) != ps:
+            return 'after %s: get_phosphosequence()=%s, expected %s (sites %s)' % (ops_[:ops_.index(op) + 1], quiet(o.get_phosphosequence), ps, model)
+        ka = quiet(o.get_kappa_after_phosphorylation)
+        ke = quiet(sp(ps).get_kappa)
+        if not close(ka, ke, 1e-12, 1e-14):
+            return 'after %s: get_kappa_after_phosphorylation()=%r but kappa(%s)=%r' % (ops_[:ops_.index(op) + 1], ka, ps, ke)
+        if list(quiet(o.get_phosphosites)) != model:
+            return 'get_phosphosites() changed to %r by the derived queries (expected %r)' % (quiet(o.get_phosphosites), model)
     ps = ''.join('E' if (i + 1) in model else c for i, c in enumerate(seq))
-    if quiet(o.get_phosphosequence) != ps:
-        return 'get_phosphosequence()=%s, expected %s (sites %s)' % (quiet(o.get_phosphosequence), ps, model)
-    ka = quiet(o.get_kappa_after_phosphorylation)
-    ke = quiet(sp(ps).get_kappa)
-    if not close(ka, ke, 1e-12, 1e-14):
-        return 'get_kappa_after_phosphorylation()=%r but kappa(%s)=%r' % (ka, ps, ke)
     sty = quiet(o.get_all_phosphorylatable_sites)
     if list(sty) != [i + 1 for i, c in enumerate(seq) if c in 'STY']:
         return 'get_all_phosphorylatable_sites()=%r' % (sty,)
@@ -106,6 +109,17 @@ def work(seed, count):
     inps.append(('MSKTEYDRSAKETGYEDKRS', [('list', [2, 4]), ('list', [4, 6])]))
     inps.append(('MSKTEYDRSAKETGYEDKRS', [('list', [15, 6, 2])]))
     inps.append(('KSTYGS', [('list', [0]), ('list', [7]), ('int', -1), ('tuple', [6, 2])]))
+    # same number of sites before and after a clear, at different positions
+    inps.append(('KSEYGSDTKKSEY', [('list', [2, 4]), 'clear', ('list', [6, 8])]))
+    inps.append(('ESKYKDTRSEEY', [('int', 2), 'clear', ('int', 12), 'clear', ('tuple', [7])]))
+    for _ in range(3):
+        s = ''.join(rng.choice('STYKEDRG') for _ in range(rng.randint(8, 20)))
+        sty = [i + 1 for i, c in enumerate(s) if c in 'STY']
+        if len(sty) >= 4:
+            k = rng.randint(1, len(sty) // 2)
+            a = rng.sample(sty, k)
+            b = rng.sample([x for x in sty if x not in a], k)
+            inps.append((s, [('list', a), 'clear', ('list', b)]))
     run_checks(r, 'series', chk_series, inps)
     return r
 
